@@ -8,13 +8,14 @@ enum Mode : uint8_t { M_DETACH_DISCARD, M_DETACH_AWAIT, M_START_FUTURE, M_START_
                       M_RETURN_FUTURE_FN, M_POOL_RUN, M_DESTROY_UNSTARTED, M_START_PROMISE_RACED, M_START_PROMISE_SESSION, M_COUNT };
 enum Comp : uint8_t { C_VALUE, C_THROW, C_SUSPEND_SAME, C_SUSPEND_OTHER, C_RESULT_CTOR_THROWS, C_COUNT };   // last: co_return of an expression from which the result cannot be constructed (its constructor throws)
 struct Node { uint8_t mode, comp; };
-struct Prog { uint8_t vt; std::vector<Node> n; uint8_t yields; };
+struct Prog { uint8_t vt; std::vector<Node> n; uint8_t yields; uint8_t watcher = 0; };   // watcher (root started with start()): a second thread waits on the SAME future while the coroutine completes
 
 inline Prog decode(hz::Reader &r) {
     Prog p; p.vt = (uint8_t)r.mod(4);
     unsigned d = 1 + r.mod(5);
     for (unsigned i = 0; i < d; i++) { Node x; x.mode = (uint8_t)r.mod(M_COUNT); x.comp = (uint8_t)r.mod(C_COUNT); p.n.push_back(x); }
     p.yields = (uint8_t)r.mod(3);
+    p.watcher = (uint8_t)(r.mod(2) == 1);       // trailing byte
     // start(promise) racing with another claimant of the same promise: only for the root (a second thread is involved)
     for (size_t i = 1; i < p.n.size(); i++) if (p.n[i].mode == M_START_PROMISE_RACED) p.n[i].mode = M_START_PROMISE_LIVE;
     // the root is launched from ordinary code: modes that need a coroutine context are mapped
@@ -38,6 +39,7 @@ inline std::string describe(const Prog &p) {
     static const char *vt[] = {"int", "void", "Counted", "int&"};
     hz::Desc d; d << "async<" << vt[p.vt] << "> chain of depth " << (unsigned)p.n.size() << ":";
     for (size_t i = 0; i < p.n.size(); i++) d << " #" << (unsigned)i << "[" << mn[p.n[i].mode] << ", " << cn[p.n[i].comp] << "]";
+    if (p.watcher && p.n[0].mode == M_START_FUTURE) d << "; a second thread waits on the root's future too";
     return d.s;
 }
 
@@ -184,7 +186,14 @@ void run_t(const Prog &p) {
         try {
             switch (p.n[0].mode) {
                 case M_DETACH_DISCARD: node<cocls::async<T>, VT>(&c, 0, Guard(SLOT_ARG)).detach(); open_same_gates(); break;
-                case M_START_FUTURE: { cocls::future<T> f = node<cocls::async<T>, VT>(&c, 0, Guard(SLOT_ARG)).start(); open_same_gates(); f.sync(); got = observe_fut<VT>(f); } break;
+                case M_START_FUTURE: {
+                    cocls::future<T> f = node<cocls::async<T>, VT>(&c, 0, Guard(SLOT_ARG)).start();
+                    // optionally the party consists of two threads waiting on the bound future: the outcome reaches both
+                    std::thread watcher; int got2 = -100;
+                    if (p.watcher) watcher = std::thread([&f, &got2, &p] { hz::upoints(p.yields); f.sync(); got2 = observe_fut<VT>(f); });
+                    open_same_gates(); f.sync(); got = observe_fut<VT>(f);
+                    if (watcher.joinable()) { watcher.join(); HZ_CHECK(got2 == got, "the second thread waiting on the future the coroutine was started to observed %d, the first one %d", got2, got); }
+                } break;
                 case M_START_PROMISE_LIVE: { cocls::future<T> f; auto pr = f.get_promise(); auto a = node<cocls::async<T>, VT>(&c, 0, Guard(SLOT_ARG)); bool ok = a.start(pr);
                                              HZ_CHECK(ok, "start(live promise) reported failure"); open_same_gates(); f.sync(); got = observe_fut<VT>(f); } break;
                 case M_START_PROMISE_CLAIMED: { cocls::future<T> f; auto pr = f.get_promise(); cocls::promise<T> thief(std::move(pr)); auto a = node<cocls::async<T>, VT>(&c, 0, Guard(SLOT_ARG));
@@ -261,7 +270,7 @@ static const char *const counter_names[] = {"c0"};
 
 namespace hz {
 static const Info I = {
-    "C04", 1, 16, 100000, true, true,
+    "C04", 1, 17, 100000, true, true,
     "rapidcheck generates (program, schedule, faults): result type in {int, void, instance-counted}, a chain of 1..5 scripted async coroutines; each node is launched by its parent (the root by ordinary code) in one of the start modes "
     "{detach discarded, co_await detach(), start()->future, start(live promise), start(already claimed promise), co_await coro, join(), future<T>(coro), future-returning coroutine function, thread_pool::run, destroyed unstarted, start(promise) of a future living in an object that only the coroutine's own argument keeps alive} and completes by "
     "{returning a value, throwing, suspending on a future resolved by the launching thread / by another thread of the virtual runtime}; every coroutine takes a guard argument by value and holds a guard local. "
